@@ -2,7 +2,7 @@
 from props import extlib
 
 ID = 'C04'
-COQ_PROPS = ['Props/C04.v', 'Props/C04img.v']
+COQ_PROPS = ['Props/C04.v', 'Props/C04img.v', 'Props/C04total.v']
 THEOREMS = ['C04_subset_shape', 'C04_subset_den', 'C04_subset_trailing1_refuted', 'C04_split_pieces', 'C04_split_piece',
             'C04_split_data', 'C04_split_affine']
 ALLOWED_AXIOMS = []
@@ -15,7 +15,7 @@ TRUSTED_BASE = ['hand-written Gallina model coq/Ext/Split.v of NiftiWrapper.spli
 ASSUMPTIONS = ['image level: the image matches its extension (same shape; slice dim_info equal to the extension slice dim, or absent); '
                'lookups of pieces are compared with the parent through get_meta with default None (an absent key denotes None)',
                'C04_split_data states the hyperplane law in (outer, inner) C-order offsets, not in multi-indices',
-               'totality (get_subset / split never raise on the domain) is checked by the correspondence + oracle only, not proved',
+               'totality (get_subset / split never raise on the domain) is PROVED (Props/C04total.v), each hypothesis shown necessary by a refuted lemma',
                'values: Python == coincides with structural equality (generators never mix 1 / 1.0 / True, no NaN)',
                'inputs are valid and nondegenerate (no key in a varying class of multiplicity 1); idx < shape[dim]',
                'key order of the result is not modelled (compared as unordered maps)',
@@ -23,6 +23,14 @@ ASSUMPTIONS = ['image level: the image matches its extension (same shape; slice 
                '(open known finding N2, signature subset/trailing-singleton/KeyError; covered by corpus/C04)']
 from props import imglib
 PARTS = [extlib.SubsetPart, extlib.SplitPart, imglib.for_property(imglib.ImgSplitPart, 'C04')]
-THEOREMS = list(THEOREMS) + imglib.THEOREMS['Props/C04img.v']
+THEOREMS = list(THEOREMS) + imglib.THEOREMS['Props/C04img.v'] + ['C04_subset_total', 'C04_subset_den_total', 'C04_subset_total_trailing1_refuted', 'C04_subset_total_idx_refuted', 'C04_subset_total_invalid_refuted', 'C04_split_total', 'C04img_split_total', 'C04img_split_w_total']
 TRUSTED_BASE = list(TRUSTED_BASE) + imglib.TRUSTED_BASE
 ASSUMPTIONS = list(ASSUMPTIONS) + imglib.ASSUMPTIONS
+
+
+# source tie (integrator): the helper functions the extension model rests on are TRANSLATED from the Python AST on every
+# run (tools/tables/py2coq.py, t_src_ext.py -> Generated/T_src_ext.v) and the hand models are proved equal to the translation
+COQ_PROPS = (list(COQ_PROPS) if isinstance(COQ_PROPS, (list, tuple)) else [COQ_PROPS]) + ['Props/SRC.v']
+THEOREMS = list(THEOREMS) + ['SRC_valid_classes', 'SRC_class_valid', 'SRC_multiplicity', 'SRC_is_constant', 'SRC_is_repeating', 'SRC_const_period', 'SRC_n_slices']
+TABLES = sorted(set(list(globals().get('TABLES') or ['t_classes', 't_ext_tol']) + ['t_src_ext', 't_classes', 't_ext_tol']))
+TRUSTED_BASE = list(TRUSTED_BASE) + ['tools/tables/py2coq.py + t_src_ext.py: typed fail-closed translator of is_constant, is_repeating, get_valid_classes, get_multiplicity, _get_const_period, n_slices into Gallina; coq/Common/PyOps2.v as the meaning of the translated primitives']
